@@ -536,6 +536,9 @@ type faultBackend struct {
 	keyHit  atomic.Bool
 	ops     []string
 	mu      sync.Mutex
+	// cancel: if set, the "fault" is not an error: the build's context is cancelled at that call
+	// (another target failed under fail_fast, Ctrl-C) and the call itself goes through
+	cancel func()
 }
 
 var errInjected = errors.New("injected backend fault")
@@ -586,6 +589,10 @@ func (f *faultBackend) Set(ctx context.Context, path, key string, content io.Rea
 	if f.slowUs > 0 {
 		time.Sleep(time.Duration(f.slowUs) * time.Microsecond)
 	}
+	if fail && f.cancel != nil {
+		f.cancel()
+		fail = false
+	}
 	if fail {
 		if f.midway {
 			return f.inner.Set(ctx, path, key, &halfReader{r: content, left: 7})
@@ -627,7 +634,7 @@ func TestFaults(t *testing.T) {
 	for id := *flagFrom; id < *flagTo; id++ {
 		r := &rnd{s: *flagSeed*31337 + uint64(id)*7 + 3}
 		dir := filepath.Join(*flagDir, fmt.Sprintf("f%d", id))
-		ops := []string{"", "set", "set", "get", "exists"}
+		ops := []string{"", "set", "set", "get", "exists", "cancel-at-set", "cancel-at-set"}
 		res := FaultResult{ID: id, FailOp: ops[r.intn(len(ops))], FailAt: int64(r.intn(24)), Midway: r.chance(1, 2), Conc: r.chance(1, 2)}
 		fmt.Printf("CASE %d %s\n", id, mustJSON(res))
 		func() {
@@ -639,6 +646,17 @@ func TestFaults(t *testing.T) {
 			config.Global.HashAlgorithm = config.HashAlgorithmXXH3
 			res.CacheDir = config.Global.GetWorkspaceCacheDirectory()
 			fb := &faultBackend{inner: e.backend, failAt: res.FailAt, failOp: res.FailOp, midway: res.Midway}
+			ctx := e.ctx
+			if res.FailOp == "cancel-at-set" {
+				// the context the outputs are written under is cancelled at the k-th write
+				var cancel context.CancelFunc
+				ctx, cancel = context.WithCancel(e.ctx)
+				defer cancel()
+				fb.failOp, fb.cancel = "set", cancel
+				if fb.failAt == 0 {
+					fb.failAt = 1
+				}
+			}
 			if res.Conc {
 				fb.slowUs = 500 + r.intn(2500)
 			}
@@ -672,14 +690,14 @@ func TestFaults(t *testing.T) {
 				model.NewOutput("file", "a.out"), model.NewOutput("file", "b.out"), model.NewOutput("file", "c.out"),
 				model.NewOutput("dir", "flat.d"), model.NewOutput("dir", "nest.d"), model.NewOutput("dir", "void.d")}}
 			writeFirst := func() {
-				result, err := reg.WriteOutputs(e.ctx, target, nil)
+				result, err := reg.WriteOutputs(ctx, target, nil)
 				if err == nil {
 					if !res.Conc {
 						fb.mu.Lock()
 						fb.ops = append(fb.ops, "RESULT-BEGIN")
 						fb.mu.Unlock()
 					}
-					err = tc.Write(e.ctx, result)
+					err = tc.Write(ctx, result)
 				}
 				if err != nil {
 					fb.mu.Lock()
@@ -709,11 +727,11 @@ func TestFaults(t *testing.T) {
 			}
 			target2 := &model.Target{Label: label.TL("pkg", "t2"), ChangeHash: "changehash2" + r.word(6, 6), Outputs: []model.Output{
 				model.NewOutput("file", "x.out"), model.NewOutput("file", "y.out"), model.NewOutput("dir", "two.d")}}
-			if result2, err2 := reg.WriteOutputs(e.ctx, target2, nil); err2 == nil {
+			if result2, err2 := reg.WriteOutputs(ctx, target2, nil); err2 == nil {
 				fb.mu.Lock()
 				fb.ops = append(fb.ops, "RESULT-BEGIN")
 				fb.mu.Unlock()
-				if err2 = tc.Write(e.ctx, result2); err2 != nil {
+				if err2 = tc.Write(ctx, result2); err2 != nil {
 					fb.mu.Lock()
 					res.WriteErr += " | second: " + err2.Error()
 					fb.mu.Unlock()
